@@ -32,6 +32,20 @@ BAD = {"dateTime": ["not-a-date", "2020-01-01", "01/02/2020 10:00"], "datetime":
        "integer": ["abc", "1.5"], "nonNegativeInteger": ["-1", "abc"], "PositiveInteger": ["0", "abc"], "positiveInteger": ["0", "abc"],
        "unsignedShort": ["70000", "-1", "abc"], "unsignedByte": ["300", "abc"], "unsignedInt": ["-1", "abc"], "unsignedLong": ["-1", "abc"],
        "duration": ["xyz", "5 minutes"]}
+# near misses: one step outside the lexical space of the type, where the conversion a validator is built on (int(), strptime, lower())
+# is more generous than the schema type
+NEAR = {"dateTime": ["2021-02-20T00:00:00.Z", "2020-01-01T00:00:00z", "2020-1-1T0:0:0Z", "", "2020-01-01t00:00:00Z", "2020-01-01 00:00:00Z",
+                     "2020-13-01T00:00:00Z", "2020-02-30T00:00:00Z", "2020-01-01T25:00:00Z", "20200101T000000Z"],
+        "boolean": ["TRUE", "True", "False", "yes", "", "01", "t"],
+        "integer": ["1_0", "\u0661\u0662", "", "1e3", "0x10", "1 0", "--1", "+"],
+        "nonNegativeInteger": ["1_0", "\u0661\u0662", "", "-1_0"], "positiveInteger": ["1_0", "\u0661", "", "-3"], "PositiveInteger": ["1_0", "\u0661", ""],
+        "unsignedShort": ["1_0", "\u0661", "65536", ""], "unsignedByte": ["2_5", "256", ""], "unsignedInt": ["1_0", "4294967296", ""],
+        "unsignedLong": ["1_0", "18446744073709551616", ""],
+        "duration": ["P1.5D", "P1DT1H1M1.S", "PT1D", "P", "PT", "P1S", "1D", "p1d", "P-1D", "P1DT", ""]}
+for _k, _v in NEAR.items():
+    BAD.setdefault(_k, [])
+    BAD[_k] = BAD[_k] + [x for x in _v if x not in BAD[_k]]
+BAD["datetime"] = BAD["datetime"] + [x for x in NEAR["dateTime"] if x not in BAD["datetime"]]
 
 
 XSI = "http://www.w3.org/2001/XMLSchema-instance"
@@ -61,6 +75,24 @@ def good_text(spec):
     if spec.get("base") == "list":
         return GOOD.get(base_type(spec.get("member", "string")), "s")
     return GOOD.get(base_type(spec.get("base", "string")), "s")
+
+
+CHECKED = ("dateTime", "datetime", "boolean", "duration", "integer", "nonNegativeInteger", "positiveInteger", "PositiveInteger",
+           "unsignedShort", "unsignedByte", "unsignedInt", "unsignedLong")
+
+
+def lexical_forms(typ):
+    """legal lexical forms of a checked simple type, plain and with the white space XML Schema collapses around them.  dateTime values with
+    a zone offset are left out in both directions: legal xs:dateTime, but SAML core 1.3.3 requires UTC without a zone component."""
+    t = base_type(typ)
+    if t not in CHECKED:
+        return []
+    out = []
+    for v in schema.TYPED_LEXICAL.get(t, []):
+        if t in ("dateTime", "datetime") and (v[-6] in "+-" and v[-3] == ":"):
+            continue
+        out += [v, " " + v, v + "\n"]
+    return out
 
 
 def bad_values(typ):
@@ -306,6 +338,11 @@ def run_case(case, ctx):
         setattr(i, member, good_value(typ))
         expect_ok(i, "attribute %s=%r (type %s)" % (xml_name, good_value(typ), typ if not isinstance(typ, type) else typ.__name__),
                   [case["module"], case["cls"], "typed-attribute-valid", xml_name, "-", "root"])
+        for lex in lexical_forms(typ):
+            i = minimal(cls)
+            setattr(i, member, lex)
+            expect_ok(i, "attribute %s=%r (a legal lexical form of %s)" % (xml_name, lex, typ),
+                      [case["module"], case["cls"], "typed-attribute-valid-form", xml_name, lex, "root"])
         for bad in bad_values(typ):
             def make(member=member, bad=bad):
                 i = minimal(cls)
@@ -318,6 +355,12 @@ def run_case(case, ctx):
                 [case["module"], case["cls"], "typed-attribute-invalid-after-priming", xml_name + "=" + bad], [], prime_with=bad)
     # (2) typed text
     if cls.c_value_type:
+        if "enumeration" not in cls.c_value_type:
+            for lex in lexical_forms(cls.c_value_type.get("base", "string")):
+                i = minimal(cls)
+                i.text = lex
+                expect_ok(i, "text %r (a legal lexical form of %r)" % (lex, cls.c_value_type),
+                          [case["module"], case["cls"], "typed-text-valid-form", lex, "-", "root"])
         for bad in bad_texts(cls.c_value_type):
             def make(bad=bad):
                 i = minimal(cls)
